@@ -3,11 +3,16 @@
   (harness/src/m_scale_chk.rs): every op runs ONE checked kernel of `EG.Model.Checked*` at the
   given integers and prints its canonical result, or `panic` where the checked kernel returns
   `none` (= a build with overflow checks and debug assertions panics there). `scale.adapter` ops
-  with a `calls` job are served by Driver/ScaleAdapter.lean (adapter model at display scale). The
-  other `scale.*` streams (`scale.shape/text/image/reject/dotted`, `scale.adapter` with other jobs)
-  have no model: oracle only (`skip`).
+  with a `calls` job are served by Driver/ScaleAdapter.lean (adapter model at display scale).
+  From the PLAIN models (see the section before `handleScale`): `scale.shape` for every shape kind
+  (Driver/ShapeView.lean) whose styled bounding box and primitive box are at most `scaleShapeMaxArea`
+  px, `scale.image`, `scale.text` for built-in fonts with both or neither of text / background colour,
+  `scale.reject sub`. No model (`skip`): `scale.dotted`, the other `scale.reject` kinds, `scale.adapter`
+  with other jobs, and the `scale.shape` / `scale.text` ops outside the slices just named.
 -/
-import EG.Driver.Util
+import EG.Driver.ShapeView
+import EG.Model.ImageRaw
+import EG.Model.TextLayout
 import EG.Model.Checked
 import EG.Model.CheckedShapes
 import EG.Model.CheckedLine
@@ -198,9 +203,155 @@ private def handleChk (kernel : String) (t : Toks) : Option String :=
     some (orPanic fmtRect (Chk.TextM.boundingBox ⟨cw, ch, sp, bl⟩ lh b al pos nlines nchars))
   | other => handleChk2 other t     -- triangles, rounded rectangles, sectors, scanlines, glyphs (Driver/ScaleChk2.lean)
 
+/-! ### `scale.shape` / `scale.image`: the result line of the harness from the plain models
+
+The harness counts what its non-allocating `Null` targets are OFFERED (no clipping): on the draw_iter-only
+target (`d1`) a `fill_solid` arrives as `area.points().zip(repeat(colour))`, a `fill_contiguous` as
+`area.points().zip(colours)`; the native target (`d2`) counts `w * h` for `fill_solid` and every colour the
+iterator yields for `fill_contiguous`. `alloc=0` is the model's statement that nothing allocates. -/
+
+private def offered (native : Bool) : Call → Option Nat
+  | .drawIter px => some px.length
+  | .fillSolid a _ => some (a.size.w * a.size.h)
+  | .fillContiguous a cs => some (if native then cs.length else min (a.size.w * a.size.h) cs.length)
+  | .clear _ => none      -- no shape, text or image issues `clear`
+
+private def offeredSum (native : Bool) (calls : List Call) : Option Nat :=
+  calls.foldl (fun acc c => do let a ← acc; let k ← offered native c; pure (a + k)) (some 0)
+
+/-- Largest box area (styled bounding box and primitive's bounding box, in px) for which `scale.shape` is
+served by the model; ops above it are printed `skip` (the plain models build pixel LISTS: a 1024 x 1024
+disc costs seconds). The slice is deterministic in the op text. -/
+private def scaleShapeMaxArea : Nat := 100000
+
+private def scaleShape (t : Toks) : Option String :=
+  match parseShapeView t with
+  | none => none
+  | some (view, _) =>
+    let v := view ⟨0, 0⟩
+    match v.bbox () with
+    | none => some "stuck"
+    | some bb =>
+      if bb.size.w * bb.size.h > scaleShapeMaxArea ∨ v.pbox.size.w * v.pbox.size.h > scaleShapeMaxArea then none
+      else
+        let r : Option String := do
+          let calls ← v.calls ()
+          let px ← v.pixels ()
+          let n1 ← offeredSum false calls
+          let n2 ← offeredSum true calls
+          let n := n1 + n2 + px.length + v.npoints ()
+          let pb := v.pbox
+          let probes : List Pt := [pb.tl, pb.center, bb.tl, bb.center,
+            ⟨pb.tl.x + (pb.size.w : Int), pb.tl.y + (pb.size.h : Int)⟩, ⟨0, 0⟩]
+          let inside := match v.contains with
+            | some f => (probes.filter f).length
+            | none => 0
+          pure s!"ok n={n} in={inside} alloc=0"
+        match r with
+        | some s => some s
+        | none => some "stuck"
+
+/-- `scale.image <bits> <order> w h x y <sub rect> <sub2 rect>`: the image, its sub-image and the nested
+sub-image (`with_center`) drawn on both targets; `some` = number of the 8 probe points with a pixel. Bits
+other than 1/2/4/8/16 use `Rgb888` (24 bpp) on a buffer sized for the `bits` of the op, as the harness does
+(`ImageRaw::new` then rejects a non-empty 32-bpp buffer: `n=0 some=0`). -/
+private def scaleImage (t : Toks) : Option String :=
+  let (bits, t) := t.nat
+  let (o, t) := t.nat
+  let (sz, t) := t.sz
+  let (pos, t) := t.pt
+  let (sub, t) := t.rect
+  let (sub2, _) := t.rect
+  let bpr := (sz.w * bits + 7) / 8
+  let data := (List.range (bpr * sz.h)).map (fun i => (i * 37 + 11) % 256)
+  let mbits := if bits == 1 || bits == 2 || bits == 4 || bits == 8 || bits == 16 then bits else 24
+  match Img.ImageRaw.new mbits (orderOf o) data sz with
+  | .error _ => some "ok n=0 some=0 alloc=0"
+  | .ok im =>
+    let raw : Img.Drawable := .raw im
+    let s1 := raw.subImage sub
+    let s2 := s1.subImage sub2
+    let calls := (Img.Image.new raw pos).draw ++ (Img.Image.new s1 pos).draw ++ (Img.Image.withCenter s2 pos).draw
+    let probes : List Pt := [⟨-1, 0⟩, ⟨0, -1⟩, ⟨0, 0⟩, ⟨(sz.w : Int), 0⟩, ⟨0, (sz.h : Int)⟩,
+      ⟨2147483647, 2147483647⟩, ⟨-2147483648, 3⟩, sub.tl]
+    let some_ := (probes.filter (fun q => (im.pixel q).isSome)).length
+    match offeredSum false calls, offeredSum true calls with
+    | some n1, some n2 => some s!"ok n={n1 + n2} some={some_} alloc=0"
+    | _, _ => none
+
+/-- `scale.reject sub x y w h`: `sub_image(area)` of a 5 x 3 one-bit image (bytes `0x5A`), its box, and what the
+native `Null` target is offered by drawing it and its nested `sub_image(area)`. The other `scale.reject` kinds
+print only what the harness itself computed from the op (`inside=`), or need the recording target
+(`drawsub`): no model side. -/
+private def scaleRejectSub (t : Toks) : Option String :=
+  let (x, t) := t.int
+  let (y, t) := t.int
+  let (w, t) := t.nat
+  let (h, _) := t.nat
+  match Img.ImageRaw.new 1 .be [90, 90, 90] ⟨5, 3⟩ with
+  | .error _ => none
+  | .ok im =>
+    let area : Rect := ⟨⟨x, y⟩, ⟨w, h⟩⟩
+    let s1 := (Img.Drawable.raw im).subImage area
+    let s2 := s1.subImage area
+    let calls := (Img.Image.new s1 ⟨1, 1⟩).draw ++ (Img.Image.new s2 ⟨1, 1⟩).draw
+    match offeredSum true calls with
+    | some n => some s!"ok bb={fmtRect s1.boundingBox} n={n}"
+    | none => none
+
+/-- `scale.text <font 0..3|null> <baseline> <align> <lh kind> <lh value> <colour mask> x y <codepoints>`. Served when
+the result does not depend on glyph bitmaps (which are not part of the op): text AND background colour set
+(every glyph is one `fill_contiguous` of the whole cell) or neither set (decorations only). With exactly one of
+the two the number of pixels offered is the number of on / off bits of the glyphs: `skip`. The null font of a
+builder without `font()` is not in the generated font table: `skip`. -/
+private def scaleText (t : Toks) : Option String :=
+  let (font, t) := t.str
+  let (bl, t) := t.nat
+  let (al, t) := t.nat
+  let (lhk, t) := t.nat
+  let (lhv, t) := t.nat
+  let (mask, t) := t.nat
+  let (pos, t) := t.pt
+  let (cps, _) := t.natList
+  let both := mask % 4 == 3
+  let neither := mask % 4 == 0
+  if font == "null" || !(both || neither) then none else
+  let (mod_, name) := match font with
+    | "0" => ("ascii", "FONT_4X6")
+    | "1" => ("ascii", "FONT_6X10")
+    | "2" => ("ascii", "FONT_10X20")
+    | _ => ("iso_8859_1", "FONT_9X18_BOLD")
+  match Generated.fontTable.find? (fun r => r.module == mod_ && r.name == name) with
+  | none => none
+  | some r =>
+    let f := Font.fontOfRec r
+    let rgb := fun (r g b : Nat) => r * 2048 + g * 32 + b
+    let st : Font.Style :=
+      ⟨if mask % 2 == 1 then some (rgb 1 2 3) else none,
+       if mask / 2 % 2 == 1 then some (rgb 3 2 1) else none,
+       if mask / 4 % 2 == 1 then .textColor else .none,
+       if mask / 8 % 2 == 1 then .custom (rgb 9 9 9) else .none⟩
+    let lh : TextLayout.LineHeight :=
+      if lhk == 0 then .percent 100 else if lhk == 1 then .pixels lhv else .percent lhv
+    let b : Font.Baseline := match bl with | 0 => .top | 1 => .bottom | 2 => .middle | _ => .alphabetic
+    let a : TextLayout.Alignment := match al with | 0 => .left | 1 => .center | _ => .right
+    let tx : TextLayout.Text := ⟨cps, pos, st, ⟨a, b, lh⟩⟩
+    let (calls, next) := TextLayout.draw f (fun _ => false) tx
+    match offeredSum false calls, offeredSum true calls with
+    | some n1, some n2 =>
+      some s!"ok n={n1 + n2} next={next.x},{next.y} bb={fmtRect (TextLayout.boundingBox f tx)} alloc=0"
+    | _, _ => none
+
 def handleScale (stream : String) (t : Toks) : Option String :=
   if stream.startsWith "scale.chk." then handleChk (stream.drop 10).toString t
   else if stream == "scale.adapter" then handleScaleAdapter t   -- `calls` jobs only (Driver/ScaleAdapter.lean)
+  else if stream == "scale.shape" then scaleShape t
+  else if stream == "scale.image" then scaleImage t
+  else if stream == "scale.text" then scaleText t
+  else if stream == "scale.reject" then
+    match t with
+    | "sub" :: t => scaleRejectSub t
+    | _ => none
   else none
 
 end EG.Driver
